@@ -19,9 +19,9 @@ T = {
  'C18': ('Machine-checked theorems on the model of the XZ decoder: success implies that the input is exactly one stream (nothing left unread: no second stream, no stream padding), that the check type is None/CRC32/CRC64 whenever a block exists (a SHA-256 block never validates), and decision rules: unassigned check IDs, any reserved stream-flag bit, any reserved block-flag bit and any filter ID other than 0x21 make the parser fail. Tied to the crate by re-serialising well-formed files with each unsupported feature.',
          'Coq proof (corollaries of the soundness theorem and parser decision rules) + differential correspondence',
          'A zero-block file declaring SHA-256 is accepted by design (nothing is skipped); documented in DESIGN.md.'),
- 'C04': ('Machine-checked theorems: for EVERY sequence of (probability, bit) steps the model of RangeEncoder (cache/carry propagation, 0xFF runs) plus finish() emits exactly the canonical byte string of the ideal unbounded-precision range encoder of the format theory, to sinks accepting any number of bytes per write; and the end marker written by dumbencoder.rs with probability-0x400 bits equals direct-bit coding for every reachable range. Round trip and byte-for-byte conformance of the three compressors with the reference encoding are checked by the differential run (model, crate, reference encoder, xz binary when present).',
+ 'C04': ('Machine-checked theorems: lzma_compress emits, for EVERY byte string, reader fragmentation, non-failing sink and option, exactly header ++ the reference encoding (format theory) of the literal program plus end marker; underlying lemmas: for EVERY sequence of (probability, bit) steps the model of RangeEncoder (cache/carry propagation, 0xFF runs) plus finish() emits exactly the canonical byte string of the ideal unbounded-precision range encoder of the format theory, to sinks accepting any number of bytes per write; and the end marker written by dumbencoder.rs with probability-0x400 bits equals direct-bit coding for every reachable range. Round trip and byte-for-byte conformance of the three compressors with the reference encoding are checked by the differential run (model, crate, reference encoder, xz binary when present).',
          'Coq proof (carry lemma, refinement of the ideal encoder, phase invariant for the marker) + differential correspondence',
-         'Partial: the composition of these lemmas through denc_finish / lzma_compress (probability tables threaded) and the LZMA2/XZ writers is not yet a theorem; it is covered by the correspondence run.'),
+         'lzma_compress is proved conformant end to end (C04_lzma_compress_conformant: every input, fragmentation, short-writing sink, all three options, empty input). The LZMA2/XZ writers and the decode(encode) round trip are covered by the correspondence run (byte-for-byte model agreement, round trip through crate, model and xz).'),
  'C05': ('Partial proof: machine-checked lemmas on which the streaming look-ahead rests - a symbol step consumes at most MAX_REQUIRED_INPUT = 20 bytes from any source (exact integer argument, including the 23-bit slot-12/13 path that the source comment misses), and the dry run consumes exactly the events of the real run without changing state. The equivalence streaming = one-shot itself is decided on every run by the differential check (Stream vs lzma_decompress on the crate and on the model, all chunkings of short inputs, cuts in the first 40 bytes, random compositions).',
          'Coq proof of the look-ahead lemmas (partial) + differential correspondence stream/one-shot/model',
          'Partial: the simulation theorem C05_stream_equals_oneshot is not proved yet.'),
@@ -37,9 +37,9 @@ T = {
  'C10': ('Machine-checked theorems on the model of LzCircularBuffer: in every reachable state the buffer holds at most memlimit bytes; an append succeeds exactly when min(produced+n, dict) <= memlimit and then behaves as without a limit, otherwise it fails with Err while the sink holds a prefix of the output. The counting allocator measures the real heap; the streaming decoder is covered by the differential run.',
          'Coq proof (window invariant incl. memlimit) + differential correspondence + allocator measurement',
          'Stated at the window level; heap is measured, not proved.'),
- 'C14': ('Machine-checked Coq theorem over the model of the raw LzmaDecoder: for EVERY history of decompress calls (any input, any sink, failing or not) and resets, reset(us) yields exactly the DecoderState of a freshly constructed decoder with the same properties, dictionary size, memory limit and re-specified/retained size, hence the next decompress has the same verdict and the same effect on source and sink (induction over histories; invariant: partial-input buffer empty, literal table shape matches lc+lp). The Lzma2Decoder half is covered by the differential run (reused vs fresh decoder, and model), no theorem yet.',
+ 'C14': ('Machine-checked Coq theorem over the model of the raw LzmaDecoder: for EVERY history of decompress calls (any input, any sink, failing or not) and resets, reset(us) yields exactly the DecoderState of a freshly constructed decoder with the same properties, dictionary size, memory limit and re-specified/retained size, hence the next decompress has the same verdict and the same effect on source and sink (induction over histories; invariant: partial-input buffer empty, literal table shape matches lc+lp). The same theorem is proved for the raw Lzma2Decoder (C14_lzma2_reset_equals_new), including that the stale size field surviving a reset is dead.',
          'Coq proof (invariant over operation histories) + differential correspondence model/crate',
-         'LZMA2 reset: correspondence only.'),
+         'Results computed from the state left by a FAILED decompress without an intervening reset are compared implementation-only (reused vs fresh decoder), not against the model (DESIGN.md section 4).'),
  'C16': ('Machine-checked Coq theorems over the model of Stream::{write,flush,finish}: after any write that did not return Ok the state is gone, and for EVERY later call sequence writes return Ok(0), flush is Ok, the stream and sink are unchanged and finish fails; once the declared size is reached every write returns Ok(0) leaving decoder, window and sink unchanged (induction over call lists). The model is tied to the code by differential runs of random call sequences.',
          'Coq proof (induction over call sequences) + differential correspondence model/crate',
          'The no-panic clause of C16 is covered by the correspondence run and by C07, not by a theorem yet.'),
